@@ -124,12 +124,7 @@ def call_spec_fn(self, name, e, st):
         return bool_val(z)
     if name == "implies":
         a = self.truth(self.ev1(e.args[0], st)[0], st)
-        npc = len(st.pc)
         b = self.truth(self.ev1(e.args[1], st)[0], st)
-        extra = st.pc[npc:]
-        del st.pc[npc:]
-        for x in extra:
-            st.assume(z3.Implies(a, x))
         return bool_val(z3.Implies(a, b))
     if name == "iff":
         a = self.truth(self.ev1(e.args[0], st)[0], st)
